@@ -66,6 +66,10 @@ type Sim struct {
 	notes    []string
 	created  []string // files created by the code under test, in creation order
 
+	// Knobs are per-run "buggify" settings of the harness seams (legal but
+	// unusual behaviour of readers, transports, ...), drawn from the plan tape.
+	Knobs map[string]int
+
 	Inert bool // an enclosing run that only collects results of sub-runs: nothing ever parks in it
 
 	StepHook func(s *Sim) // evaluated at every quiescent point before a release
@@ -103,6 +107,7 @@ func New(plan, sched *Tape) *Sim {
 		StepCap:  20000,
 		trace:    sha256.New(),
 		Faults:   map[string]int{},
+		Knobs:    map[string]int{},
 		Probes:   map[string]int{},
 		KeepLog:  400,
 		t0:       time.Now(),
@@ -757,3 +762,19 @@ func (s *Sim) Yield(point string) { s.park("", point, true) }
 
 // HeldDelta tracks cache mutex ownership of the calling goroutine.
 func (s *Sim) HeldDelta(d int) { s.heldDelta(d) }
+
+// ChooseSelect is a scheduling decision taken by a goroutine of the system
+// under test: which case of a select with several ready cases is looked at
+// first (Go itself picks pseudo-randomly). Recorded on the schedule tape.
+func (s *Sim) ChooseSelect(point string, n int) int {
+	gid := Goid()
+	s.mu.Lock()
+	defer s.mu.Unlock()
+	if s.closed || s.Inert || n <= 1 {
+		return 0
+	}
+	if l := s.labelOf(gid); l == "" {
+		return 0
+	}
+	return s.Sched.Choose(n)
+}
